@@ -7,20 +7,33 @@ VERIF = os.path.dirname(os.path.dirname(os.path.abspath(__file__)))
 sys.path.insert(0, os.path.join(VERIF, "tools"))
 import triage_rules as TR
 prop = sys.argv[1]
+REBUILD = "--rebuild" in sys.argv      # drop this property's existing entries first (after an engine change that renames keys)
 env = dict(os.environ, VERIF_EVIDENCE_DIR="/tmp/mk-tables-evidence")
-out = subprocess.run([os.path.join(VERIF, "check"), prop], stdout=subprocess.PIPE, stderr=subprocess.STDOUT, text=True, env=env).stdout
-counts = {}
-for m in re.finditer(r"^  key: (.*?)   \(found x(\d+), allowed x(\d+)\)$", out, re.M):
-    counts[m.group(1)] = int(m.group(2))
 # also keep keys already tabled (they no longer show up as violations)
 rev_path = os.path.join(VERIF, "tables", "reviewed_safe.json")
 reviewed = json.load(open(rev_path)) if os.path.exists(rev_path) else []
 known_path = os.path.join(VERIF, "known_findings.txt")
 known_lines = open(known_path).read().splitlines() if os.path.exists(known_path) else []
+if REBUILD:
+    keep = []
+    for e in reviewed:
+        if prop in e["properties"]:
+            e["properties"].remove(prop)
+            if not e["properties"]:
+                continue
+        keep.append(e)
+    reviewed = keep
+    known_lines = [l for l in known_lines if not l.startswith("known: property=%s " % prop)]
+    json.dump(reviewed, open(rev_path, "w"), indent=1, ensure_ascii=False)
+    open(known_path, "w").write("\n".join(known_lines) + "\n")
 have_rev = {}
 for e in reviewed:
     have_rev[e["key"]] = e
 have_known = {l for l in known_lines}
+out = subprocess.run([os.path.join(VERIF, "check"), prop], stdout=subprocess.PIPE, stderr=subprocess.STDOUT, text=True, env=env).stdout
+counts = {}
+for m in re.finditer(r"^  key: (.*?)   \(found x(\d+), allowed x(\d+)\)$", out, re.M):
+    counts[m.group(1)] = int(m.group(2))
 unmatched = []
 for key, n in sorted(counts.items()):
     disp = None
